@@ -1,7 +1,7 @@
 (* C12 — string pool.  Statements only; proofs in proofs/PoolProofs.v. *)
 From Coq Require Import ZArith List Bool.
-Require Import NS.theories.Generated NS.theories.Bump NS.theories.Pool
-               NS.proofs.BumpProofs NS.proofs.PoolProofs.
+Require Import NS.theories.Generated NS.theories.Bump NS.theories.Pool NS.theories.GenPoolStr
+               NS.proofs.BumpProofs NS.proofs.PoolProofs NS.proofs.PoolStrProofs.
 Import ListNotations.
 Open Scope Z_scope.
 
@@ -136,6 +136,30 @@ Theorem C12_pooled_contains :
   set_contains (sc_set c) (sb_addr b) = true.
 Proof. exact pooled_contains. Qed.
 Print Assumptions C12_pooled_contains.
+
+(* PoolSet::alloc_str (the entry point that writes CONTENT into a granted buffer on behalf of
+   the client; shape regenerated from its body by translator/gen_poolstr.py): it requests
+   exactly len bytes, and everything it writes - the copy and any further store through the
+   buffer pointer - ends at offset len, so it stays inside the granted buffer ... *)
+Theorem C12_alloc_str_shape :
+  forall len, alloc_str_request len = len /\ alloc_str_extent len = len /\ alloc_str_result_len len = len.
+Proof. exact alloc_str_shape. Qed.
+Print Assumptions C12_alloc_str_shape.
+
+Theorem C12_alloc_str_within_buffer :
+  forall lo c b len, SInv lo c -> sizes_ok slot_sizes slot_counts (ps_pools (sc_set c)) ->
+  In b (sc_live c) -> 0 <= len -> sb_size b = alloc_str_request len ->
+  alloc_str_extent len <= sb_len b /\ alloc_str_result_len len <= sb_len b.
+Proof. exact alloc_str_within_buffer. Qed.
+Print Assumptions C12_alloc_str_within_buffer.
+
+(* ... and therefore never reaches another live buffer (exact-fit strings included) *)
+Theorem C12_alloc_str_spares_others :
+  forall lo c b y len, SInv lo c -> sizes_ok slot_sizes slot_counts (ps_pools (sc_set c)) ->
+  In b (sc_live c) -> 0 <= len -> sb_size b = alloc_str_request len -> ranges_disjoint b y ->
+  sb_addr b + alloc_str_extent len <= sb_addr y \/ sb_addr y + sb_len y <= sb_addr b.
+Proof. exact alloc_str_spares_others. Qed.
+Print Assumptions C12_alloc_str_spares_others.
 
 (* side conditions of the regenerated tables *)
 Theorem C12_tables_ok :
